@@ -171,7 +171,7 @@ struct Runner {
     // Folds a child's report into the process result. `scen` describes the case (JSON object) for violations made here.
     void absorb(const Report& rep, const std::string& scen) {
         vrt::Result& R = vrt::result();
-        for (auto& kv : rep.stats) R.stat(kv.first, kv.second);
+        for (auto& kv : rep.stats) if (kv.first.rfind("L|", 0) != 0) R.stat(kv.first, kv.second);
         for (auto& kv : rep.stat_maxes) R.stat_max(kv.first, kv.second);
         for (auto& v : rep.viols) R.violation(v.key, v.detail, v.scen == "{}" ? scen : v.scen);
         if (rep.inconclusive) { R.inconclusive++; R.stat("children_inconclusive_stall"); return; }
